@@ -145,12 +145,13 @@ fn check_with(css: &str, prefix: &str) -> Option<(String, String)> {
 /// options interplay: with :host conversion on, a `:host` rule moves to the low-priority output; every OTHER rule, before and
 /// after it, is rewritten exactly as it is without the `:host` rule
 fn check_host(rule: &str) -> Option<(String, String)> {
-    // the rule under test behind and in front of the :host rules
-    for form in 0..2 {
-        let (css, plain) = if form == 0 {
-            (format!(".h1{{width:1px}}:host{{color:red}}{}@media x{{:host{{top:0}}{}}}", rule, rule), format!(".h1{{width:1px}}{}@media x{{{}}}", rule, rule))
+    // the rule under test behind and in front of the :host rules; pseudo-class names are ASCII case-insensitive
+    for form in 0..4 {
+        let h = if form < 2 { ":host" } else if rule.len() % 2 == 0 { ":HOST" } else { ":Host" };
+        let (css, plain) = if form % 2 == 0 {
+            (format!(".h1{{width:1px}}{h}{{color:red}}{}@media x{{{h}{{top:0}}{}}}", rule, rule, h = h), format!(".h1{{width:1px}}{}@media x{{{}}}", rule, rule))
         } else {
-            (format!(".h1{{width:1px}}{}:host{{color:red}}@media x{{{}:host{{top:0}}}}", rule, rule), format!(".h1{{width:1px}}{}@media x{{{}}}", rule, rule))
+            (format!(".h1{{width:1px}}{}{h}{{color:red}}@media x{{{}{h}{{top:0}}}}", rule, rule, h = h), format!(".h1{{width:1px}}{}@media x{{{}}}", rule, rule))
         };
         let t = StyleSheetTransformer::from_css("p.wxss", &css, StyleSheetOptions { class_prefix: Some("p".into()), class_prefix_sign: Some("S".into()), rpx_ratio: 750., convert_host: true, host_is: Some("h".into()), ..Default::default() });
         if t.warnings().count() > 0 { return None; }
